@@ -11,16 +11,14 @@ import NiVerif.Py.Err
 
 namespace Py
 
-def US_PER_DAY : Int := 86400 * 1000000
-def YS_PER_DAY : Int := 86400 * 1000000000000000000000000
-def MAX_DAYS : Int := 999999999
+abbrev US_PER_DAY : Int := 86400 * 1000000
+abbrev YS_PER_DAY : Int := 86400 * 1000000000000000000000000
+abbrev MAX_DAYS : Int := 999999999
 
 /-- Is a total-microsecond count a valid `datetime.timedelta`? (`-999999999 d ≤ td < 1000000000 d`) -/
-def dtTdInRange (us : Int) : Prop := -MAX_DAYS * US_PER_DAY ≤ us ∧ us < (MAX_DAYS + 1) * US_PER_DAY
-instance (us : Int) : Decidable (dtTdInRange us) := by unfold dtTdInRange; exact inferInstance
+abbrev dtTdInRange (us : Int) : Prop := -MAX_DAYS * US_PER_DAY ≤ us ∧ us < (MAX_DAYS + 1) * US_PER_DAY
 
-def htTdInRange (ys : Int) : Prop := -MAX_DAYS * YS_PER_DAY ≤ ys ∧ ys < (MAX_DAYS + 1) * YS_PER_DAY
-instance (ys : Int) : Decidable (htTdInRange ys) := by unfold htTdInRange; exact inferInstance
+abbrev htTdInRange (ys : Int) : Prop := -MAX_DAYS * YS_PER_DAY ≤ ys ∧ ys < (MAX_DAYS + 1) * YS_PER_DAY
 
 /-- `datetime.timedelta(days=, seconds=, microseconds=)` with integer arguments. -/
 def dtTimedelta (days seconds microseconds : Int) : Except PyErr Int :=
